@@ -268,7 +268,16 @@ def k1_run(subcmd, seed, total, shards, scratch, extra_args=(), timeout=3000, co
     bad = [(i, rc) for i, rc in enumerate(rcs) if rc != 0]
     res = {"dirs": dirs, "harness_failures": [], "mismatches": [], "oracle_failures": [], "cases": 0,
            "stats": [], "t_impl": t_impl}
+    hung = set()
     for i, rc in bad:
+        hp = os.path.join(dirs[i], "hang.txt")
+        if os.path.exists(hp):
+            # the per-case watchdog of the harness: the implementation did not finish this case
+            limit, _, line = open(hp).read().partition("\n")
+            res["oracle_failures"].append({"shard": i, "index": -1, "case": line.strip(), "impl": "",
+                                           "oracle": f"FAIL hang the implementation did not finish this case within {limit.strip()} s"})
+            hung.add(i)
+            continue
         errtxt = ""
         try:
             errtxt = open(os.path.join(scratch, f"{subcmd}-s{i}.hlog.err")).read()[-2000:]
@@ -284,6 +293,8 @@ def k1_run(subcmd, seed, total, shards, scratch, extra_args=(), timeout=3000, co
         if rc != 0:
             res["harness_failures"].append({"driver": argv[1], "rc": rc})
     for si, d in enumerate(dirs):
+        if si in hung:
+            continue    # its output files end in the middle of a case
         try:
             cases = open(os.path.join(d, "cases.txt")).read().splitlines()
             impl = open(os.path.join(d, "impl.txt")).read().splitlines()
